@@ -54,6 +54,18 @@ def c02(R):
         if out.shape != (N,) or not close(out, Qm.max(1)): R.fail("c02.sweep_is_bellman_backup", "sweep != max_a sum_e p (r + gamma V[idx(next)]) for event weights that do not sum to one", inp, out, Qm.max(1))
         s.values = jnp.array(V); pol = np.asarray(s._extract_policy())
         if not all(abs(Qm[i, int(pol[i, 0])] - Qm[i].max()) <= 1e-9 * max(1, abs(Qm[i].max())) for i in range(N)): R.fail("c02.policy_greedy", "extracted policy does not attain the maximum of sum_e p (r + gamma V) (weights not summing to one)", inp, pol[:, 0], Qm.argmax(1))
+    # more states than the DEFAULT batch size (1024) and not a multiple of it, default options throughout: tables from the problem's own functions
+    from mdpax.problems import Forest as _Forest
+    fp = _Forest(S=1100, r1=40.0, p=0.1); g = 0.95
+    f_t = jax.vmap(jax.vmap(jax.vmap(fp.transition, in_axes=(None, None, 0)), in_axes=(None, 0, None)), in_axes=(0, None, None))
+    f_p = jax.vmap(jax.vmap(jax.vmap(fp.random_event_probability, in_axes=(None, None, 0)), in_axes=(None, 0, None)), in_axes=(0, None, None))
+    nxt, rew = f_t(fp.state_space, fp.action_space, fp.random_event_space); prb = np.asarray(f_p(fp.state_space, fp.action_space, fp.random_event_space)); prb = prb.reshape(prb.shape[:3])
+    idx = np.asarray(jax.vmap(jax.vmap(jax.vmap(fp.state_to_index)))(nxt)); rew = np.asarray(rew).reshape(prb.shape); V = rng.normal(0, 4, 1100)
+    sv = VI(fp, gamma=g, epsilon=1e-6, verbose=0); out = np.asarray(sv._update_values(sv.batched_states, fp.action_space, fp.random_event_space, sv.gamma, jnp.array(V))); Qm = (prb * (rew + g * V[idx])).sum(-1)
+    inp = dict(problem="Forest(S=1100, r1=40, p=0.1)", gamma=g, max_batch_size="default (1024)", n_batches=int(sv.batch_processor.n_batches), n_pad=int(sv.batch_processor.n_pad)); R.case(("forest1100",), inp)
+    if out.shape != (1100,) or not close(out, Qm.max(1)): R.fail("c02.sweep_is_bellman_backup", "sweep != max_a sum_e p (r + gamma V[idx(next)]) for 1100 states with the default batch size", inp, float(np.abs(out - Qm.max(1)).max()) if out.shape == (1100,) else out.shape, 0.0)
+    sv.values = jnp.array(V); pol = np.asarray(sv._extract_policy())
+    if pol.shape[0] != 1100 or not all(abs(Qm[i, int(pol[i, 0])] - Qm[i].max()) <= 1e-9 * max(1, abs(Qm[i].max())) for i in range(1100)): R.fail("c02.policy_greedy", "extracted policy does not attain the maximum (1100 states, default batch size)", inp)
     # a problem with more than 256 (and more than 2**16 is out of reach) actions: index arithmetic must not be narrowed
     N, A, E = 3, 300, 1; ns = rng.integers(0, N, (N, A, E)); r = rng.normal(0, 3, (N, A, E)).round(2); r[:, 280:, :] += 50.0; p = np.ones((N, A, E))
     prob = Tab(ns, r, p); s = VI(prob, gamma=0.9, epsilon=1e-6, verbose=0, max_batch_size=2); V = rng.normal(0, 4, N); s.values = jnp.array(V); pol = np.asarray(s._extract_policy()); Qm = Qf(ns, r, p, 0.9, V)
@@ -432,7 +444,8 @@ def c17_shipped(R):
         return P / P.sum(-1, keepdims=True), (pr * rew).sum(-1)
     for cls, kws in [(DMP, [dict(max_demand=3, max_useful_life=2, lead_time=1, max_order_quantity=2), dict(max_demand=3, max_useful_life=2, lead_time=1, max_order_quantity=3)]),
                      (MJP, [dict(max_demand=2, max_useful_life=2, max_order_quantity=1, useful_life_at_arrival_distribution_c_0=(0.5,), useful_life_at_arrival_distribution_c_1=(0.2,)), dict(max_demand=2, max_useful_life=2, max_order_quantity=2, useful_life_at_arrival_distribution_c_0=(0.5,), useful_life_at_arrival_distribution_c_1=(0.2,))]),
-                     (Forest, [dict(S=3), dict(S=5, p=0.3)])]:
+                     # more states than any internal block size / the default batch size of 1024, and not a multiple of it
+                     (Forest, [dict(S=3), dict(S=5, p=0.3), dict(S=1100, r1=40.0, p=0.1)])]:
         for kw in kws:
             pb = cls(**kw); inp = dict(problem=cls.__name__, params=kw, note="built after another instance of the same class in this process"); R.case((cls.__name__, json.dumps(kw)), None)
             Pm, Rm = pb.build_transition_and_reward_matrices(); Pref, Rref = functional(pb)
